@@ -23,7 +23,7 @@ func init() {
 		Rules: []string{"R04.1", "R04.2", "R04.3", "R03.1", "R03.5"},
 		Explanation: "Decides the replay/live boundary structure: R04.1 Put precedes the fan-out whenever a replayer is configured; R04.2 the message handed to Send is loaded from the cell into which Put's ID-carrying result is stored whenever it is non-nil (and Put did not fail); " +
 			"R04.3 replay and registration happen in one loop iteration with no channel operation between them, the insert is reached exactly when Replay did not return a genuine error, and a failed replay sends the error, closes and does not register; R03.1 the replayer is only used from the loop goroutine (Put and Replay never overlap); R03.5 no select between accept and fan-out.",
-		NotDecided: "that the replay start position is the position after the presented ID (ring index arithmetic: the newest-ID defect D6 of DESIGN §5 lives there and is NOT decided), eviction arithmetic, equality of ID values beyond R04.2.",
+		NotDecided: "which elements each(i) visits for a given start index and what findIDInQueue computes for evicted/absent IDs (ring index arithmetic; only the start-index protocol R08.5 and the copy order R18.5 are decided), eviction arithmetic, equality of ID values beyond R04.2.",
 	})
 	prop(&PropertySpec{
 		ID: "C07", Level: "other",
